@@ -1,35 +1,79 @@
 import TrionModel.Props.C02
-import TrionModel.Spec.Arm
+import TrionModel.Lemmas.CodecDec
+import TrionModel.Lemmas.ArmAgree
 /-!
 # C01 — emitted machine code is the ARMv6-M encoding of the instruction
 
 Specification: `Trion.Arm.table` / `Trion.Arm.decode` (`Spec/Arm.lean`), the ARMv6-M encoding diagrams as
-bit-pattern rows; it shares no code with the model `Trion.Codec.encode`.
+bit-pattern rows with their UNPREDICTABLE side conditions; `Arm.decode hws` = the first row (in table order)
+of the right width whose fixed bits agree.  The table shares no code with the model `Trion.Codec.encode`.
 
-Full-strength statements of the design (kept visible; **not yet proved** in Lean — see `props/C01.json`):
-```
-theorem enc_sound    : encode i = .ok hws → i.wf → Arm.decode hws = some i
-theorem enc_complete : Arm.decode hws = some i → ∃ hws', encode i = .ok hws' ∧ Arm.decode hws' = some i
-theorem enc_reject   : encode i = .error e → ∀ hws, Arm.decode hws ≠ some i
-```
-What is missing: the link "`Arm.decode` and `Codec.decode` read every pattern alike"
-(`∀ h, Arm.decode [h] = toOpt (decode16 h)`, `∀ h0 h1, Arm.decode [h0,h1] = toOpt (decode32 h0 h1)`), from which
-the three statements follow with C02 `dec_enc` and C03 `dec_canon`.  Kernel evaluation of the string-pattern
-table costs ≈ 90 ms per halfword (measured), i.e. hours for the 16-bit half; it needs a compiled form of the
-table plus an equivalence lemma.  Until then these three clauses rest on the exhaustive run of the harness,
-which evaluates exactly them on the real encoder against this table (all 2^16 halfwords; all 6144 × 65536 wide
-patterns in the thorough tier; the whole structured operand domain).
-
-Proved here: length/shape of every encoding (`enc_len`), little-endian byte order (`bytes_le`), and soundness
-for the operand-free instructions (`enc_sound_nullary_partial`).
+Proof route: the table and the decoder model read **every** bit pattern alike
+(`Lemmas/ArmAgree*.lean`: `spec16`, `spec16_wide`, `spec32'`, `spec_len` — per group of leading bits the
+decoder is split into its branches and the rows of the group are walked with linear arithmetic);
+`enc_sound` is then C02 `dec_enc` read through that agreement, `enc_complete` is C03's canonicity
+(`decode16_out`, `decode32_out`) read through it, and `enc_reject` is the contrapositive of `enc_complete`.
 -/
 namespace Trion.Codec
 open Trion
 
-/-- is the encoding of `i` two halfwords wide? (MSR, MRS, barriers, UDF.W, BL) -/
-def wideInstr : Instr → Bool
-  | .bl _ | .dmb | .dsb | .isb | .mrs _ _ | .msr _ _ | .udfw _ => true
-  | _ => false
+/-- The diagram strings of the table are not just documentation: every row's arithmetic reading
+(`n`, `fixed`, `fields`, which is what `Arm.decode` evaluates) is `Arm.compile` of its diagram. -/
+theorem table_reads_diagrams : ∀ rw ∈ Arm.table, Arm.readsDiagram rw = true := by decide +kernel
+
+/-- C01.a  Soundness: whatever the encoder emits is, in the ARMv6-M table, the encoding of exactly that
+instruction (mnemonic and every operand). -/
+theorem enc_sound (i : Instr) (hws : List Nat) (h : encode i = .ok hws) (wf : i.wf) : Arm.decode hws = some i := by
+  rcases rt_all i hws h wf with ⟨w, rfl, _, ht, hd⟩ | ⟨w0, w1, rfl, b0, b1, ht, _, hd⟩
+  · rw [spec16 w ht, hd]; rfl
+  · rw [spec32' w0 w1 b0 b1, if_pos ht, hd]; rfl
+
+/-- C01.b  Completeness: every operand tuple that some bit pattern encodes in the table is accepted by the
+encoder, and what the encoder emits for it is again an encoding of that tuple (possibly the alias row:
+`ADDS Rd,Rd,#imm3` is emitted in the two-operand form). -/
+theorem enc_complete (i : Instr) (hws : List Nat) (h : Arm.decode hws = some i) :
+    ∃ hws', encode i = .ok hws' ∧ Arm.decode hws' = some i := by
+  match hws, h with
+  | [], h => rw [spec_len [] (by simp) (by simp)] at h; cases h
+  | [w], h =>
+    have hlt : w < 65536 := by
+      unfold Arm.decode at h
+      split at h
+      · rename_i a; simpa using a
+      · cases h
+    by_cases ht : w / 2048 < 29
+    · rw [spec16 w ht] at h
+      obtain ⟨n, hd⟩ := toOpt_some h
+      have o := decode16_out w ht
+      rw [hd] at o
+      cases o with
+      | ok _ h' he t' _ hd' => exact ⟨[h'], he, by rw [spec16 h' t', hd']; rfl⟩
+    · rw [spec16_wide w hlt (by omega)] at h; cases h
+  | [w0, w1], h =>
+    have hb : w0 < 65536 ∧ w1 < 65536 := by
+      unfold Arm.decode at h
+      split at h
+      · rename_i a; simpa using a
+      · cases h
+    rw [spec32' w0 w1 hb.1 hb.2] at h
+    split at h
+    · obtain ⟨n, hd⟩ := toOpt_some h
+      have o := decode32_out w0 w1
+      rw [hd] at o
+      cases o with
+      | ok _ he wf =>
+        obtain ⟨v0, v1, he⟩ := he
+        exact ⟨[v0, v1], he, enc_sound i _ he wf⟩
+    · cases h
+  | a :: b :: c :: rest, h => rw [spec_len _ (by simp) (by simp)] at h; cases h
+
+/-- C01.c  Rejection is justified: an operand tuple the encoder rejects has no encoding in the table at all —
+nothing is emitted as the encoding of some other instruction, and nothing encodable is refused. -/
+theorem enc_reject (i : Instr) (e : EncErr) (h : encode i = .error e) : ∀ hws, Arm.decode hws ≠ some i := by
+  intro hws hd
+  obtain ⟨hws', he, _⟩ := enc_complete i hws hd
+  rw [h] at he
+  cases he
 
 /-- C01.d  Every accepted instruction is emitted as one or two halfwords, each below 2^16; two halfwords
 exactly when the first one lies in the architecture's 32-bit space (`Arm.wide`). -/
@@ -49,21 +93,94 @@ theorem enc_len (i : Instr) (hws : List Nat) (h : encode i = .ok hws) (wf : i.wf
 /-- C01.e  Serialisation is little-endian, first halfword first. -/
 theorem bytes_le (h0 h1 : Nat) : toBytes [h0, h1] = [h0 % 256, h0 / 256, h1 % 256, h1 / 256] := rfl
 
-/-- C01.a restricted to the operand-free instructions: the emitted halfwords are, in the ARMv6-M table,
-the encoding of exactly that instruction. -/
-theorem enc_sound_nullary_partial (i : Instr)
-    (hi : i = .nop ∨ i = .yield ∨ i = .wfe ∨ i = .wfi ∨ i = .sev ∨ i = .dmb ∨ i = .dsb ∨ i = .isb)
-    (hws : List Nat) (h : encode i = .ok hws) : Arm.decode hws = some i := by
-  rcases hi with rfl | rfl | rfl | rfl | rfl | rfl | rfl | rfl <;>
-    (simp only [encode] at h; cases h; decide +kernel)
+/-- the table and the decoder agree on every pattern (the alias clause of C03: what the decoder returns is
+the architectural reading of the bytes) -/
+theorem dec_alias (hws : List Nat) (i : Instr) :
+    Arm.decode hws = some i ↔ ∃ n, decode (toBytes hws) = .ok (n, i) ∧ (hws.length = 1 ∨ hws.length = 2) ∧
+      (∀ w ∈ hws, w < 65536) ∧ 2 * hws.length = n := by
+  constructor
+  · intro h
+    obtain ⟨hws', he, hs⟩ := enc_complete i hws h
+    match hws, h with
+    | [], h => rw [spec_len [] (by simp) (by simp)] at h; cases h
+    | [w], h =>
+      have hlt : w < 65536 := by
+        unfold Arm.decode at h
+        split at h
+        · rename_i a; simpa using a
+        · cases h
+      by_cases ht : w / 2048 < 29
+      · rw [spec16 w ht] at h
+        obtain ⟨n, hd⟩ := toOpt_some h
+        have o := decode16_out w ht
+        rw [hd] at o
+        have hn : n = 2 := by cases o; rfl
+        subst hn
+        refine ⟨2, ?_, .inl rfl, by intro x hx; simp at hx; omega, rfl⟩
+        have := decode_single w [] ht
+        rw [List.append_nil] at this
+        rw [this, hd]
+      · rw [spec16_wide w hlt (by omega)] at h; cases h
+    | [w0, w1], h =>
+      have hb : w0 < 65536 ∧ w1 < 65536 := by
+        unfold Arm.decode at h
+        split at h
+        · rename_i a; simpa using a
+        · cases h
+      rw [spec32' w0 w1 hb.1 hb.2] at h
+      split at h
+      · rename_i t
+        obtain ⟨n, hd⟩ := toOpt_some h
+        have o := decode32_out w0 w1
+        rw [hd] at o
+        have hn : n = 4 := by cases o; rfl
+        subst hn
+        refine ⟨4, ?_, .inr rfl, by intro x hx; simp at hx; rcases hx with rfl | rfl <;> omega, rfl⟩
+        have := decode_double w0 w1 [] t (by omega)
+        rw [List.append_nil] at this
+        rw [this, hd]
+      · cases h
+    | a :: b :: c :: rest, h => rw [spec_len _ (by simp) (by simp)] at h; cases h
+  · rintro ⟨n, hd, hl, hb, hn⟩
+    match hws, hl with
+    | [w], _ =>
+      have hlt : w < 65536 := hb w (by simp)
+      by_cases ht : w / 2048 < 29
+      · have := decode_single w [] ht
+        rw [List.append_nil] at this
+        rw [this] at hd
+        rw [spec16 w ht, hd]; rfl
+      · exfalso
+        simp only [toBytes, decode] at hd
+        rw [le16, if_neg ht, if_pos (by omega)] at hd
+        cases hd
+    | [w0, w1], _ =>
+      have b0 : w0 < 65536 := hb w0 (by simp)
+      have b1 : w1 < 65536 := hb w1 (by simp)
+      by_cases ht : 29 ≤ w0 / 2048
+      · have := decode_double w0 w1 [] ht (by omega)
+        rw [List.append_nil] at this
+        rw [this] at hd
+        rw [spec32' w0 w1 b0 b1, if_pos ht, hd]; rfl
+      · exfalso
+        have o := decode16_out w0 (by omega)
+        have := decode_single w0 (toBytes [w1]) (by omega)
+        have e : toBytes [w0] ++ toBytes [w1] = toBytes [w0, w1] := rfl
+        rw [e] at this
+        rw [this] at hd
+        rw [hd] at o
+        have : n = 2 := by cases o; rfl
+        simp at hn; omega
 
-/-! witnesses: the table reads concrete emitted encodings as the instruction, including the CPS polarity
-(im = 0 enables) and an UNPREDICTABLE pattern -/
+/-! witnesses -/
 example : encode (.cps true) = .ok [0xB662] ∧ Arm.decode [0xB662] = some (.cps true) := ⟨rfl, by decide +kernel⟩
 example : encode (.add false 8 13 (.reg 8)) = .error .unrepresentable := rfl
 example : Arm.decode [0x4487] = some (.add false 15 15 (.reg 0)) := by decide +kernel
 example : Arm.decode [0x44FF] = none := by decide +kernel
 example : encode (.bl (-4)) = .ok [0xF7FF, 0xFFFE] ∧ Arm.decode [0xF7FF, 0xFFFE] = some (.bl (-4)) :=
   ⟨rfl, by decide +kernel⟩
+-- the alias allowed by `enc_complete`: the three-operand diagram with Rd = Rn is read as the same tuple
+example : Arm.decode [0x1C40] = some (.add true 0 0 (.imm 1)) ∧ encode (.add true 0 0 (.imm 1)) = .ok [0x3001] :=
+  ⟨by decide +kernel, rfl⟩
 
 end Trion.Codec
